@@ -92,7 +92,7 @@ class ICache(Slice):
                 ic[0], ic[1] = rng.choice([0, 0, 1]), rng.choice([0, 1, 2])     # few sets: conflicts
             prog, regs, mem = gen_threaded(rng, ic)
             return {"spec": [prog, regs, mem, [], ic], "five": rng.random() < 0.5, "steps": 500}
-        prog = gen_loop_program(rng) if r < 0.75 else gen_rv.gen_program(rng, maxlen=20, allow_fault=False)
+        prog = gen_loop_program(rng) if r < 0.75 else gen_rv.gen_program(rng, maxlen=20, allow_fault=rng.random() < 0.4)
         return {"spec": gen_rv.gen_state_spec(rng, prog, [], ic), "five": rng.random() < 0.5, "steps": 500}
 
     def run(self, case, model):
@@ -101,7 +101,7 @@ class ICache(Slice):
         it = impl_trace(spec, case["steps"], mode=mode, extra=pipe_extra if five else None)
         mt = model_trace(model, 2 if five else 1, spec, case["steps"], *([1] if five else []))
         names = ["regs", "mem", "out", "exit", "pc", "istats", "cycles", "icount"]
-        d = compare_traces(it, mt, names, fault_names=["regs", "mem", "out"])
+        d = compare_traces(it, mt, names, fault_names=["regs", "mem", "out", "cycles", "istats"])
         findings = [("disagreement", d)] if d else []
         cl = {"five" if five else "single"}
         st, term = final_state(it)
@@ -115,9 +115,18 @@ class ICache(Slice):
         rc = cache_exec.RefCache(cfg)
         pen = cfg[5]
         states = [o for o in it if len(o) >= 8]
+        if it[-1][0] == 1:
+            states.append(it[-1][2])            # the state left behind by a faulting step
+            cl.add("fault")
         ok = True
-        for a, b in zip(states, states[1:]):
+        faulted = it[-1][0] == 1
+        for k, (a, b) in enumerate(zip(states, states[1:])):
             da = b[7][1] - a[7][1]
+            if b[5][3] - a[5][3] != 1 + pen * (da - (b[7][0] - a[7][0])):
+                findings.append(("violation", f"cycle counter advanced by {b[5][3] - a[5][3]} in a step with {da - (b[7][0] - a[7][0])} fetch miss(es) and penalty {pen}"))
+                break
+            if faulted and k == len(states) - 2:
+                break           # the latches of a faulting step do not tell the fetch address; only the penalty law is checked there
             if da not in (0, 1):
                 findings.append(("violation", f"instruction-cache accesses advanced by {da} in one step"))
                 break
@@ -152,7 +161,7 @@ class ICache(Slice):
                 "mode": "five" if case["five"] else "single"}
 
     def required_classes(self, tier):
-        return ["five", "single", "hit", "miss"]
+        return ["five", "single", "hit", "miss", "fault"]
 
 
 class Reload(Slice):
@@ -291,9 +300,71 @@ class ICacheHistory(Slice):
             yield dict(case, ops=ops[:i] + ops[i + 1:])
 
 
+class ICacheImages(Slice):
+    """direct, implementation only: images that are NOT the ordinary 'program from address 0' — an instruction memory whose first
+    address is not block-aligned, and images with gaps inside a block (written with write_instruction); every fetch through the
+    cache must return what the uncached instruction memory returns (same instruction object, or the same error)"""
+    name = "icache-images"
+
+    def gen(self, rng, index, tier):
+        base = rng.choice([0, 0, 4, 8, 12, 16, 20, 40])
+        n = rng.randrange(1, 24)
+        present = [k for k in range(n) if rng.random() < (1.0 if rng.random() < 0.5 else 0.75)] or [0]
+        seq = [rng.choice(present + [rng.randrange(0, n + 3)]) for _ in range(rng.randrange(1, 40))]
+        return {"base": base, "present": present, "seq": seq, "cfg": gen_rv.gen_cache_cfg(rng), "rewrite": rng.random() < 0.3}
+
+    def run(self, case, model):
+        from architecture_simulator.uarch.memory.instruction_memory import InstructionMemory
+        from architecture_simulator.uarch.memory.instruction_memory_cache_system import InstructionMemoryCacheSystem
+        from architecture_simulator.uarch.riscv.riscv_performance_metrics import RiscvPerformanceMetrics
+        from architecture_simulator.isa.riscv.rv32i_instructions import ADDI
+        base, cfg = case["base"], case["cfg"]
+        imem = InstructionMemory(address_range=range(base, 2 ** 14))
+        cs = InstructionMemoryCacheSystem(imem, cfg[0], cfg[1], cfg[2], RiscvPerformanceMetrics(), cfg[5], "plru" if cfg[3] else "lru")
+        for k in case["present"]:
+            cs.write_instruction(base + 4 * k, ADDI(rd=1, rs1=0, imm=k))
+        findings, cl = [], {"base!=0" if base % (4 << cfg[1]) else "aligned", "gaps" if len(case["present"]) <= max(case["present"]) else "dense"}
+
+        def get(obj, a):
+            try:
+                return ("ok", obj.read_instruction(a))
+            except Exception as e:
+                return ("err", type(e).__name__)
+        for j, k in enumerate(case["seq"]):
+            a = base + 4 * k
+            if cs.instruction_at_address(a) != imem.instruction_at_address(a):
+                findings.append(("violation", f"instruction_at_address({a}) differs with the cache"))
+                break
+            if not imem.instruction_at_address(a):
+                continue        # the fetch stage never reads where no instruction is stored (the cache answers such a read with an empty slot)
+            u, c = get(imem, a), get(cs, a)
+            if u[0] != c[0] or (u[0] == "ok" and u[1] is not c[1]) or (u[0] == "err" and u[1] != c[1]):
+                findings.append(("violation", f"fetch #{j} at address {a} (memory starts at {base}, instructions at words {case['present']}): uncached {u}, through the cache {c}"))
+                break
+            if cs.instruction_at_address(a) != imem.instruction_at_address(a):
+                findings.append(("violation", f"instruction_at_address({a}) differs with the cache"))
+                break
+            if case["rewrite"] and j == len(case["seq"]) // 2:
+                # a new image, loaded the way load_program does it (reset, then write): everything cached so far must be forgotten
+                cs.reset()
+                cs.write_instructions([ADDI(rd=2, rs1=0, imm=100 + i) for i in range(len(case["present"]))])
+                cl.add("rewritten")
+        return findings, cl
+
+    def nontrivial(self, classes):
+        return "base!=0" in classes or "gaps" in classes
+
+    def required_classes(self, tier):
+        return ["base!=0", "aligned", "gaps", "dense", "rewritten"]
+
+    def shrink(self, case):
+        for i in range(len(case["seq"]) - 1, -1, -1):
+            yield dict(case, seq=case["seq"][:i] + case["seq"][i + 1:])
+
+
 def slices():
-    return [ICache(), Reload(), ICacheHistory()]
+    return [ICache(), Reload(), ICacheHistory(), ICacheImages()]
 
 
-BUDGET = {"quick": {"icache": 600, "icache-reload": 200, "icache-history": 600},
-          "thorough": {"icache": 20000, "icache-reload": 5000, "icache-history": 20000}}
+BUDGET = {"quick": {"icache": 600, "icache-reload": 200, "icache-history": 600, "icache-images": 800},
+          "thorough": {"icache": 20000, "icache-reload": 5000, "icache-history": 20000, "icache-images": 30000}}
